@@ -88,6 +88,29 @@ func removableDecoy(rel string) bool {
 	return b != "strings" && b != "os"
 }
 
+// collidingPair searches (birthday search over two families of one-function files, about 2 x 32 000
+// candidates) two different valid library files whose SHA-256 digests share the first seven hex digits.
+func collidingPair(seed uint64) (string, string) {
+	mkA := func(i int) string { return fmt.Sprintf("// settings %d/%d\nfunc Retries() int {\n\treturn %d\n}\n", seed%9973, i, i%1000) }
+	mkB := func(i int) string { return fmt.Sprintf("// limits %d/%d\nfunc Limit() int {\n\treturn %d\n}\n", seed%9973, i, i%1000) }
+	key := func(s string) uint32 {
+		d := sha256.Sum256([]byte(s))
+		return uint32(d[0])<<20 | uint32(d[1])<<12 | uint32(d[2])<<4 | uint32(d[3])>>4
+	}
+	seenA, seenB := map[uint32]int{}, map[uint32]int{}
+	for i := 0; i < 400000; i++ {
+		ka, kb := key(mkA(i)), key(mkB(i))
+		seenA[ka], seenB[kb] = i, i
+		if j, ok := seenB[ka]; ok {
+			return mkA(i), mkB(j)
+		}
+		if j, ok := seenA[kb]; ok {
+			return mkA(j), mkB(i)
+		}
+	}
+	return mkA(0), mkB(0)
+}
+
 func sha(b []byte) string {
 	h := sha256.Sum256(b)
 	return hex.EncodeToString(h[:8])
@@ -287,6 +310,22 @@ func c14GenOdd(r *Run, rng *gen.Rng, corpus []string, oddPool []string) *c14Hist
 		gw.Edges[name] = nil
 		h.Progs = append(h.Progs, name)
 	}
+	if rng.Chance(10) {
+		// two different library files whose content hashes agree in the first seven hex digits (the
+		// length of the namespace prefix): used by different programs and by one program together
+		ca, cb := collidingPair(rng.U64())
+		gw.Set("col/a.tsh", []byte(ca))
+		gw.Set("col/b.tsh", []byte(cb))
+		for _, m := range []struct{ name, src string; imps []string }{
+			{"colA.tsh", "import ca \"col/a.tsh\"\nprint(ca.Retries())\n", []string{"col/a.tsh"}},
+			{"colB.tsh", "import cb \"col/b.tsh\"\nprint(cb.Limit())\n", []string{"col/b.tsh"}},
+			{"colAB.tsh", "import (\n\tca \"col/a.tsh\"\n\tcb \"col/b.tsh\"\n)\nprint(ca.Retries(), cb.Limit())\n", []string{"col/a.tsh", "col/b.tsh"}},
+		} {
+			gw.Set(m.name, []byte(m.src))
+			gw.Edges[m.name] = m.imps
+			h.Progs = append(h.Progs, m.name)
+		}
+	}
 	h.Files = gw.Files
 	h.Decoys = gw.Decoys
 	for _, p := range h.Progs {
@@ -316,7 +355,7 @@ func c14GenOdd(r *Run, rng *gen.Rng, corpus []string, oddPool []string) *c14Hist
 	h.Mount0 = rng.Pick([]string{"/sim/m", "/w/my proj", "/srv/a/b", "/w/proj-1.2/src", "/home/u/.config/t"})
 	h.Exe0 = rng.Pick([]string{"/sim/x", "/opt/tsh/bin"})
 	mounts := []string{"/sim/m", "/w/my proj", "/srv/a/b", "/mnt/other place/p", "/m2", "/w/100% (x)/p", "/w/a+b [1]", "/w/it's/$HOME", "/w/UPPER/lower", "/" + strings.Repeat("deep/", 12) + "p",
-		"/home/u/.dotfiles/scripts", "/w/proj-1.2/src", "/tmp/tmp.AbC123/p", "/w/a.b/c.d/e"}
+		"/home/u/.dotfiles/scripts", "/w/proj-1.2/src", "/tmp/tmp.AbC123/p", "/w/a.b/c.d/e", "/w/projet-été/src", "/home/ユーザー/p"}
 	exes := []string{"/sim/x", "/opt/tsh/bin", "/usr/local/libexec/t", "/a/first", "/zz/last", "/opt/tsh-1.2/bin"}
 	// phase 0: canonical execution of every (program, target)
 	obj := 100
